@@ -954,8 +954,9 @@ static char *create_output_name(const char *fname, const char *dir,
 static int can_write(char *name) {
     struct stat st_buf;
 
-    /* if file does not exist, always write */
-    if (stat(name, &st_buf) != 0) return 1;
+    /* if file does not exist, always write. a symlink whose target does not
+     * exist does exist, and must not be written through: use lstat() */
+    if (lstat(name, &st_buf) != 0) return 1;
 
     /* if "-n" is set (no overwrite), always skip */
     if (args.no_overwrite) return 0;
